@@ -188,6 +188,11 @@ pub struct EnvSpec {
     /// Ordinals of `write_bytes` calls (per process) that fail, e.g. disk full during `\dump`.
     #[serde(default)]
     pub fs_write_faults: Vec<(u64, IoFault)>,
+    /// Environment events: before job line `.0` is executed, file `.1` is replaced by `.2` (someone
+    /// edits a file between two prompt lines). A process that starts at a later line sees every
+    /// replacement that was due before it.
+    #[serde(default)]
+    pub file_updates: Vec<(usize, String, Vec<u8>)>,
 }
 
 pub struct VmProc {
@@ -362,6 +367,21 @@ impl VmProc {
     }
 
     /// Execute one line with the REPL protocol and record the observables.
+    /// Apply the file replacements that are due before job line `line` (idempotent: the newest
+    /// replacement per file that is due wins).
+    pub fn apply_file_updates(&mut self, updates: &[(usize, String, Vec<u8>)], line: usize) {
+        if updates.is_empty() {
+            return;
+        }
+        let fs = self.vm.state.env.fs.clone();
+        let fs = fs.borrow();
+        for (at, name, content) in updates.iter() {
+            if *at <= line {
+                fs.add(name, content);
+            }
+        }
+    }
+
     pub fn exec_line(&mut self, text: &str) -> LineObs {
         let vm = &mut self.vm;
         let name = format!("{SIM_CWD}/job.tex");
